@@ -514,6 +514,7 @@ def run_check(chk, tier, seed, replay=None):
         except Exception:
             pass
         path = write_replay(pid, f.to_json(pid))
+        out_lines.append('FINDING property=%s key=%s what=%s' % (pid, f.key, str(f.what).replace('\n', ' ')[:400]))
         out_lines.append('VIOLATION property=%s replay=%s' % (pid, path))
         exit_code = 1
     if not violations and (proof_broken or corr_diffs):
